@@ -311,6 +311,55 @@ def run_churn(i):
         shutil.rmtree(wd, ignore_errors=True)
 
 
+def run_reinit(i):
+    """A thread that calls ovni_thread_init again while it is being traced (the call is ignored with a
+    warning) must not affect the threads that start afterwards: they initialise, emit, flush and are freed
+    as usual.  Tiny programs (a few dozen operations) with a 30 s watchdog; a run that exceeds it is run
+    once more, and only two timeouts in a row count as a hang."""
+    chk, drv = _CTX["chk"], _CTX["drv"]
+    rng = chk.rng(i, "reinit")
+    nother = rng.randint(1, 4)
+    reps = rng.randint(1, 3)
+    first = ["init 7000", "cpu 0 0"] + ["init 7000"] * reps + ["barrier"] + \
+            ["ev OB. now %04x" % k for k in range(rng.randint(1, 20))] + ["flush", "free", "end"]
+    out = ["proc 1 node 901", "thread"] + first
+    for t in range(nother):
+        out += ["thread", "barrier", "init %d" % (7001 + t)] + (["init %d" % (7001 + t)] if rng.random() < 0.3 else []) + \
+               ["ev OB. now %04x" % k for k in range(rng.randint(1, 20))] + ["flush", "free", "end"]
+    out.append("fini")
+    script = "\n".join(out) + "\n"
+    res = {"i": i, "viol": [], "inconclusive": None, "threads": 1 + nother}
+    wd = os.path.join(chk.scratch, "reinit%d" % i)
+    try:
+        for attempt in range(2):
+            shutil.rmtree(wd, ignore_errors=True)
+            os.makedirs(wd)
+            r = rt.run_script(drv, script, wd, env=dict(TSAN_ENV), timeout=30)
+            if not r.timeout:
+                break
+        if r.timeout:
+            res["viol"].append(("hang:thread-init-after-repeated-init", "a program of %d threads, the first of which calls "
+                                "ovni_thread_init %d times, did not finish within 30 s (twice)" % (1 + nother, 1 + reps),
+                                {"script_head": script[:800]}))
+            return res
+        if r.rc in (97, 98):
+            raise core.HarnessError("rtdrv: " + r.err[-300:])
+        for key, block in tsan_reports(r.err):
+            if key.startswith("harness:"):
+                raise core.HarnessError("ThreadSanitizer report in the driver itself:\n" + block[:1500])
+            res["viol"].append(("tsan:" + key, "ThreadSanitizer report with a repeated ovni_thread_init", {"report": block[:1500]}))
+        if r.rc != 0 or "RTDRV-DONE" not in r.out:
+            res["viol"].append(("driver-died:reinit:rc=%s:sig=%s" % (r.rc, r.sig), "the library stopped a program in which a "
+                                "thread calls ovni_thread_init twice", r.brief()))
+            return res
+        n = len(obs.find_streams(os.path.join(wd, "trace")))
+        if n != 1 + nother:
+            res["viol"].append(("stream-count:reinit", "%d streams for %d threads" % (n, 1 + nother), {}))
+        return res
+    finally:
+        shutil.rmtree(wd, ignore_errors=True)
+
+
 def main(argv):
     chk = core.Check("C11", "exploration", argv)
     tsan = chk.build("tsan", ["ovni"])
@@ -362,13 +411,18 @@ def main(argv):
         nchurn += 1; starts += r["starts"]; cstreams += r["streams"]
         for key, what, o in r["viol"]:
             chk.report(key, what, dict(o, case=r["i"], kind="churn"))
+    nre = 0
+    for r in core.pmap(run_reinit, [] if chk.replay else list(range(12 if quick else 200)), jobs=max(2, core.NCPU // 4)):
+        nre += 1
+        for key, what, o in r["viol"]:
+            chk.report(key, what, dict(o, case=r["i"], kind="reinit"))
     c0 = gen_mt(chk, 0)
-    cov = {"evaluations": nmt + nrace + nchurn, "distinct_nontrivial": len(orders) + len(winners),
+    cov = {"evaluations": nmt + nrace + nchurn + nre, "reinit_runs": nre, "distinct_nontrivial": len(orders) + len(winners),
            "rule": "libovni built with gcc -fsanitize=thread. MT runs: 2-16 threads released from a barrier, each init / "
                    "add-cpu / require / attributes / 50-3000 emits incl. jumbos, marks, explicit and automatic flushes, "
                    "attr_flush / free, with OVNI_VERIF_DELAY perturbation and OVNI_TMPDIR on/off; per-thread stream and "
                    "metadata compared with that thread's own log. Race runs: 2-16 threads race ovni_proc_init, then "
-                   "ovni_proc_fini; losers are parked in a SIGABRT handler and counted. Churn runs: rounds of one thread that "
+                   "ovni_proc_fini; losers are parked in a SIGABRT handler and counted. Reinit runs: a thread calls ovni_thread_init again while traced, others start afterwards (30 s watchdog, two timeouts in a row = hang). Churn runs: rounds of one thread that "
                    "lives and is freed followed by (or at the same time as) 2-8 threads initialising together (TSan and plain "
                    "builds, OVNI_TMPDIR in half of them), every "
                    "stream checked against its thread's tagged events. distinct_nontrivial = distinct "
